@@ -307,7 +307,7 @@ func TestRandom(t *testing.T) {
 		Check:      checkSchema,
 		NonTrivial: rich,
 		Classes:    classes,
-		Quick:      700, Thorough: 10000,
+		Quick:      1200, Thorough: 16000,
 	})
 }
 
@@ -319,7 +319,7 @@ func TestRandomEditions(t *testing.T) {
 		Check:      checkSchema,
 		NonTrivial: rich,
 		Classes:    classes,
-		Quick:      400, Thorough: 6000,
+		Quick:      700, Thorough: 10000,
 	})
 }
 
@@ -331,7 +331,7 @@ func TestRandomBig(t *testing.T) {
 		Check:      checkSchema,
 		NonTrivial: rich,
 		Classes:    classes,
-		Quick:      60, Thorough: 1000,
+		Quick:      100, Thorough: 1600,
 	})
 }
 
